@@ -18,6 +18,7 @@ import (
 	uuid "github.com/satori/go.uuid"
 	"pgregory.net/rapid"
 	"verifharness/catalog"
+	"verifharness/hutil"
 	"verifharness/pbt"
 )
 
@@ -34,15 +35,15 @@ const (
 )
 
 type Act struct {
-	Poison bool       `json:"poison,omitempty"` // create: the local replicas' log stores are corrupt (raft panics while loading them)
+	Poison bool `json:"poison,omitempty"` // create: the local replicas' log stores are corrupt (raft panics while loading them)
 	// Unreadable (with Poison): the stored snapshot of the local replicas' log stores cannot be read instead: starting the
 	// raft group returns an error, which the allocator ignores; the partition is unloaded later like any other
-	Unreadable bool `json:"unreadable,omitempty"`
-	K      int        `json:"k"`
-	Node   uint64     `json:"node,omitempty"`
-	Slot   int        `json:"slot,omitempty"`
-	Nodes  [][]uint64 `json:"nodes,omitempty"`
-	Repl   int        `json:"repl,omitempty"` // create: replication factor (partitions with fewer nodes are under-replicated: the allocator proposes joining peers for them)
+	Unreadable bool       `json:"unreadable,omitempty"`
+	K          int        `json:"k"`
+	Node       uint64     `json:"node,omitempty"`
+	Slot       int        `json:"slot,omitempty"`
+	Nodes      [][]uint64 `json:"nodes,omitempty"`
+	Repl       int        `json:"repl,omitempty"` // create: replication factor (partitions with fewer nodes are under-replicated: the allocator proposes joining peers for them)
 }
 
 func (a Act) String() string {
@@ -320,9 +321,8 @@ func electLoaded(r *catalog.Replica) {
 }
 
 func workerInsidePartitionGroupProposal() bool {
-	buf := make([]byte, 4<<20)
-	buf = buf[:runtime.Stack(buf, true)]
-	for _, g := range strings.Split(string(buf), "\n\n") {
+	buf := hutil.AllStacks()
+	for _, g := range strings.Split(buf, "\n\n") {
 		if strings.Contains(g, "Allocator).runNodeChanges") && (strings.Contains(g, "RaftGroup).ProposeJoin") || strings.Contains(g, "RaftGroup).ProposeLeave")) {
 			return true
 		}
@@ -338,10 +338,9 @@ var gHeader = regexp.MustCompile(`^goroutine (\d+) \[([^\],]+)`)
 var abandoned = map[string]bool{}
 
 func parked() []string {
-	buf := make([]byte, 8<<20)
-	buf = buf[:runtime.Stack(buf, true)]
+	buf := hutil.AllStacks()
 	var out []string
-	for _, g := range strings.Split(string(buf), "\n\n") {
+	for _, g := range strings.Split(buf, "\n\n") {
 		m := gHeader.FindStringSubmatch(g)
 		if m == nil || abandoned[m[1]] || !strings.Contains(g, "/repo/") {
 			continue
